@@ -158,7 +158,7 @@ def run(case):
         out.cls("lmax-raised")
     if st_.get("raised2"):
         out.cls("lmax-raised-by>=2-in-one-step")
-    out.cls(drive.scale_class(case))
+    out.cls(drive.scale_class(case), "dim_adaptive=%s" % case.get("dim_adaptive", True))
     out.cls("version=%d" % case["version"], "mode=%d" % case["mode"])
     if case.get("legs"):
         out.cls("history-cut-into-%d-runs" % min(len(case["legs"]) + 1, 4))
@@ -169,7 +169,18 @@ def run(case):
 
 
 def strategy(tier):
-    return drive.st_dw_case(tier=tier, scales=True)
+    @st.composite
+    def s(draw):
+        c = draw(drive.st_dw_case(tier=tier, scales=True))
+        if draw(st.integers(0, 4)) == 0:
+            c["dim_adaptive"] = False       # documented option: one isotropic target level instead of a dimension-adaptive scheme
+            # every raise lifts the level of the whole (standard) scheme: keep these histories short
+            c["maxsteps"] = min(c["maxsteps"], 4)
+            c["maxev"] = min(c["maxev"], 150)
+            c["legs"] = None
+            c["rerun"] = None
+        return c
+    return s()
 
 
 def selftest():
